@@ -255,4 +255,541 @@ theorem mathResult_sound (n : Node) (inn : AMap Reg) (s s' : MState) (rd : Reg) 
         · simp at hres
   | _ => simp [mathResult] at hres
 
+
+/-! ### the generated value (`gen_reg_value`) is sound -/
+
+theorem operate_zero_shift (op : MathOp) (h : op = .and ∨ op = .sll ∨ op = .sra ∨ op = .srl) (y : Word) :
+    operate op 0#32 y = 0#32 := by
+  rcases h with rfl | rfl | rfl | rfl
+  · simp [operate]
+  · simp [operate]
+  · simp [operate, BitVec.sshiftRight_eq_of_msb_false]
+  · simp [operate]
+
+theorem operate_zero_id (op : MathOp) (h : op = .add ∨ op = .xor ∨ op = .or) (y : Word) :
+    operate op 0#32 y = y := by
+  rcases h with rfl | rfl | rfl <;> simp [operate]
+
+theorem opOf_cases_imm : Spec.opOf "Addi" = some .add ∧ Spec.opOf "Xori" = some .xor ∧ Spec.opOf "Ori" = some .or ∧
+    Spec.opOf "Addiw" = none ∧ Spec.opOf "Andi" = some .and ∧ Spec.opOf "Slli" = some .sll ∧
+    Spec.opOf "Slliw" = none ∧ Spec.opOf "Srai" = some .sra ∧ Spec.opOf "Sraiw" = none ∧
+    Spec.opOf "Srli" = some .srl ∧ Spec.opOf "Srliw" = none := by decide
+
+/-- what `gen_reg_value` claims for the destination of a register-to-register instruction is
+    true after the instruction (x0 reads as zero) -/
+theorem genReg_sound (n : Node) (s s' : MState) (rd : Reg) (v : Word) (r : Reg) (val : AVal)
+    (hz : s.reg 0 = 0#32) (hval : plainValue s n = some (rd, v)) (hstep : PlainStep s s' rd v)
+    (hgen : n.genRegValue = some (r, val)) : r = rd ∧ r ≠ 0 ∧ claimHolds s' rd val := by
+  cases n with
+  | loadAddr i wrd name tok =>
+    simp only [plainValue, Option.some.injEq, Prod.mk.injEq] at hval
+    obtain ⟨hrd, hv⟩ := hval
+    simp only [Node.genRegValue] at hgen
+    split at hgen
+    · simp at hgen
+    · rename_i hr0
+      simp only [Option.some.injEq, Prod.mk.injEq] at hgen
+      obtain ⟨e1, e2⟩ := hgen
+      subst e1; subst e2
+      have hne : wrd.val ≠ 0 := by simpa using hr0
+      refine ⟨hrd, hne, ?_⟩
+      show s'.reg rd = s'.addr name.val
+      rw [hstep.wr (by rw [← hrd]; exact hne), hstep.addr, ← hv]
+  | iarith i wrd rs1 imm tok =>
+    simp only [Node.genRegValue] at hgen
+    by_cases h0 : (rs1.val == 0) = true
+    · have hrs : rs1.val = 0 := by simpa using h0
+      simp only [h0, if_true] at hgen
+      by_cases hA : (["Addi", "Lui", "Addiw", "Xori", "Ori"].contains i.val) = true
+      · simp only [hA, if_true] at hgen
+        split at hgen
+        · simp at hgen
+        · rename_i hr0
+          simp only [Option.some.injEq, Prod.mk.injEq] at hgen
+          obtain ⟨e1, e2⟩ := hgen
+          subst e1; subst e2
+          have hne : wrd.val ≠ 0 := by simpa using hr0
+          simp only [plainValue] at hval
+          by_cases hl : i.val = "Lui"
+          · simp only [hl, if_true, Option.some.injEq, Prod.mk.injEq] at hval
+            obtain ⟨hrd, hv⟩ := hval
+            refine ⟨hrd, hne, ?_⟩
+            show s'.reg rd = imm.val
+            rw [hstep.wr (by rw [← hrd]; exact hne), ← hv]
+          · simp only [hl, if_false] at hval
+            have hcases : i.val = "Addi" ∨ i.val = "Addiw" ∨ i.val = "Xori" ∨ i.val = "Ori" := by
+              simp only [List.contains_cons, List.contains_nil, Bool.or_false, Bool.or_eq_true, beq_iff_eq] at hA
+              rcases hA with h | h | h | h | h
+              · exact Or.inl h
+              · exact absurd h hl
+              · exact Or.inr (Or.inl h)
+              · exact Or.inr (Or.inr (Or.inl h))
+              · exact Or.inr (Or.inr (Or.inr h))
+            obtain ⟨c1, c2, c3, c4, _⟩ := opOf_cases_imm
+            have key : ∀ op, Spec.opOf i.val = some op → (op = .add ∨ op = .xor ∨ op = .or) →
+                wrd.val = rd ∧ wrd.val ≠ 0 ∧ claimHolds s' rd (.const imm.val) := by
+              intro op hop hk
+              simp only [hop, Option.map_some, Option.some.injEq, Prod.mk.injEq] at hval
+              obtain ⟨hrd, hv⟩ := hval
+              refine ⟨hrd, hne, ?_⟩
+              show s'.reg rd = imm.val
+              rw [hstep.wr (by rw [← hrd]; exact hne), ← hv, hrs, hz, ← operate_rv32, operate_zero_id op hk]
+            rcases hcases with h | h | h | h
+            · exact key .add (by rw [h]; exact c1) (Or.inl rfl)
+            · rw [h, c4] at hval; simp at hval
+            · exact key .xor (by rw [h]; exact c2) (Or.inr (Or.inl rfl))
+            · exact key .or (by rw [h]; exact c3) (Or.inr (Or.inr rfl))
+      · have hA' : (["Addi", "Lui", "Addiw", "Xori", "Ori"].contains i.val) = false := by simpa using hA
+        simp only [hA', Bool.false_eq_true, if_false] at hgen
+        by_cases hB : (["Andi", "Slli", "Slliw", "Srai", "Sraiw", "Srli", "Srliw"].contains i.val) = true
+        · simp only [hB, if_true] at hgen
+          split at hgen
+          · simp at hgen
+          · rename_i hr0
+            simp only [Option.some.injEq, Prod.mk.injEq] at hgen
+            obtain ⟨e1, e2⟩ := hgen
+            subst e1; subst e2
+            have hne : wrd.val ≠ 0 := by simpa using hr0
+            have hl : i.val ≠ "Lui" := by
+              intro h; rw [h] at hB; simp at hB
+            simp only [plainValue, hl, if_false] at hval
+            obtain ⟨_, _, _, _, d1, d2, d3, d4, d5, d6, d7⟩ := opOf_cases_imm
+            have key : ∀ op, Spec.opOf i.val = some op → (op = .and ∨ op = .sll ∨ op = .sra ∨ op = .srl) →
+                wrd.val = rd ∧ wrd.val ≠ 0 ∧ claimHolds s' rd (.const 0#32) := by
+              intro op hop hk
+              simp only [hop, Option.map_some, Option.some.injEq, Prod.mk.injEq] at hval
+              obtain ⟨hrd, hv⟩ := hval
+              refine ⟨hrd, hne, ?_⟩
+              show s'.reg rd = 0#32
+              rw [hstep.wr (by rw [← hrd]; exact hne), ← hv, hrs, hz, ← operate_rv32, operate_zero_shift op hk]
+            simp only [List.contains_cons, List.contains_nil, Bool.or_false, Bool.or_eq_true, beq_iff_eq] at hB
+            rcases hB with h | h | h | h | h | h | h
+            · exact key .and (by rw [h]; exact d1) (Or.inl rfl)
+            · exact key .sll (by rw [h]; exact d2) (Or.inr (Or.inl rfl))
+            · rw [h, d3] at hval; simp at hval
+            · exact key .sra (by rw [h]; exact d4) (Or.inr (Or.inr (Or.inl rfl)))
+            · rw [h, d5] at hval; simp at hval
+            · exact key .srl (by rw [h]; exact d6) (Or.inr (Or.inr (Or.inr rfl)))
+            · rw [h, d7] at hval; simp at hval
+        · have hB' : (["Andi", "Slli", "Slliw", "Srai", "Sraiw", "Srli", "Srliw"].contains i.val) = false := by
+            simpa using hB
+          simp only [hB', Bool.false_eq_true, if_false] at hgen
+          simp at hgen
+    · have h0' : (rs1.val == 0) = false := by simpa using h0
+      simp [h0'] at hgen
+  | arith i wrd rs1 rs2 tok =>
+    simp only [Node.genRegValue] at hgen
+    by_cases h0 : (rs1.val == 0 && rs2.val == 0) = true
+    · simp only [h0, if_true] at hgen
+      have h00 : rs1.val = 0 ∧ rs2.val = 0 := by simpa using h0
+      split at hgen
+      · simp at hgen
+      · rename_i hr0
+        simp only [Option.some.injEq, Prod.mk.injEq] at hgen
+        obtain ⟨e1, e2⟩ := hgen
+        subst e1; subst e2
+        have hne : wrd.val ≠ 0 := by simpa using hr0
+        simp only [plainValue] at hval
+        cases hop : Spec.opOf i.val with
+        | none => simp [hop] at hval
+        | some op =>
+          simp only [hop, Option.map_some, Option.some.injEq, Prod.mk.injEq] at hval
+          obtain ⟨hrd, hv⟩ := hval
+          refine ⟨hrd, hne, ?_⟩
+          rw [mathOpOf_spec i.val op hop]
+          show s'.reg rd = operate op 0#32 0#32
+          rw [hstep.wr (by rw [← hrd]; exact hne), ← hv, h00.1, h00.2, hz, ← operate_rv32]
+    · have h0' : (rs1.val == 0 && rs2.val == 0) = false := by simpa using h0
+      simp [h0'] at hgen
+  | _ => simp [plainValue] at hval
+
+
+/-! ### register-set facts -/
+
+theorem mem_toList (s : RegSet) (k : Reg) : k ∈ RegSet.toList s ↔ k < 32 ∧ RegSet.mem s k = true := by
+  simp [RegSet.toList]
+
+theorem mem_single (rd k : Nat) (hrd : rd < 32) : RegSet.mem (RegSet.single rd) k = decide (k = rd) := by
+  unfold RegSet.mem RegSet.single
+  rw [BitVec.getLsbD_shiftLeft]
+  by_cases hk : k = rd
+  · subst hk; simp [hrd]
+  · simp only [hk, decide_false]
+    by_cases h1 : k < rd
+    · simp [h1]
+    · have : k - rd ≠ 0 := by omega
+      simp [BitVec.getLsbD_one, this]
+
+theorem mem_diff' (a b : RegSet) (r : Nat) :
+    RegSet.mem (RegSet.diff a b) r = (RegSet.mem a r && !RegSet.mem b r) := by
+  simp only [RegSet.mem, RegSet.diff, BitVec.getLsbD_and, BitVec.getLsbD_not]
+  by_cases h : r < 32
+  · simp [h]
+  · have : a.getLsbD r = false := BitVec.getLsbD_of_ge a r (Nat.le_of_not_lt h)
+    simp [this]
+
+theorem constZeroSet_eq : constZeroSet = 1#32 := by decide
+
+theorem mem_constZero (k : Reg) : RegSet.mem constZeroSet k = decide (k = 0) := by
+  rw [constZeroSet_eq]
+  unfold RegSet.mem
+  simp [BitVec.getLsbD_one]
+
+/-- a register-to-register instruction kills exactly its destination, unless that is x0 -/
+def plainKill (rd : Reg) : RegSet := RegSet.diff (RegSet.single rd) constZeroSet
+
+theorem mem_plainKill (rd k : Reg) (hrd : rd < 32) :
+    k ∈ RegSet.toList (plainKill rd) ↔ k = rd ∧ rd ≠ 0 := by
+  rw [mem_toList, plainKill, mem_diff', mem_single rd k hrd, mem_constZero]
+  constructor
+  · intro ⟨_, h⟩
+    simp only [Bool.and_eq_true, decide_eq_true_eq, Bool.not_eq_true', decide_eq_false_iff_not] at h
+    exact ⟨h.1, by rw [← h.1]; exact h.2⟩
+  · intro ⟨h1, h2⟩
+    subst h1
+    exact ⟨hrd, by simp [h2]⟩
+
+/-! ### the rules on keys other than the destination, and on plain claims -/
+
+/-- no claim is relative to the zero register (such claims are never created: the entry seeds
+    are callee-saved registers, folding keeps the base register) -/
+def NoZeroBase (m : AMap Reg) : Prop :=
+  ∀ p ∈ m, match p.2 with
+    | .ors r _ => r ≠ 0
+    | .rs r _ => r ≠ 0
+    | _ => True
+
+theorem zeroConsts_id (out inn : AMap Reg) (h : NoZeroBase inn) : zeroConsts out inn = out := by
+  unfold zeroConsts
+  induction inn generalizing out with
+  | nil => rfl
+  | cons p ps ih =>
+    simp only [List.foldl_cons]
+    have hp := h p List.mem_cons_self
+    have hrest : NoZeroBase ps := fun q hq => h q (List.mem_cons_of_mem _ hq)
+    have : zeroStep out p = out := by
+      unfold zeroStep
+      split
+      · rename_i r i heq; rw [heq] at hp; simp at hp; simp [hp]
+      · rename_i r i heq; rw [heq] at hp; simp at hp; simp [hp]
+      · rfl
+    rw [this]
+    exact ih out hrest
+
+theorem get_pullCsr_ne (out : AMap Reg) (memIn : AMap MemLoc) (rd k : Reg) (hk : k ≠ rd) :
+    AMap.get (pullCsrValue out memIn rd) k = AMap.get out k := by
+  unfold pullCsrValue
+  split
+  · split
+    · exact AMap.get_insert_ne out k rd _ (fun e => hk e.symm)
+    · rfl
+  · rfl
+
+theorem get_pullStack_ne (out : AMap Reg) (memIn : AMap MemLoc) (rd k : Reg) (hk : k ≠ rd) :
+    AMap.get (pullStackValue out memIn rd) k = AMap.get out k := by
+  unfold pullStackValue
+  split
+  · split
+    · split
+      · exact AMap.get_insert_ne out k rd _ (fun e => hk e.symm)
+      · rfl
+    · rfl
+  · rfl
+
+theorem get_valueFromStack_ne (n : Node) (out : AMap Reg) (memIn : AMap MemLoc) (wrd : W Reg) (k : Reg)
+    (hw : n.writesTo = some wrd) (hk : k ≠ wrd.val) :
+    AMap.get (ruleValueFromStack n out memIn) k = AMap.get out k := by
+  unfold ruleValueFromStack
+  rw [hw]
+  simp only []
+  rw [get_pullStack_ne _ _ _ _ hk, get_pullCsr_ne _ _ _ _ hk]
+
+/-- a destination whose claim is not a CSR value or a stack reference is left alone -/
+theorem valueFromStack_plain (n : Node) (out : AMap Reg) (memIn : AMap MemLoc) (wrd : W Reg)
+    (hw : n.writesTo = some wrd)
+    (hplain : ∀ x, AMap.get out wrd.val = some x → (∀ c, x ≠ .vcsr c) ∧ (∀ r o, x ≠ .omr r o)) :
+    ruleValueFromStack n out memIn = out := by
+  unfold ruleValueFromStack
+  rw [hw]
+  simp only []
+  have h1 : pullCsrValue out memIn wrd.val = out := by
+    unfold pullCsrValue
+    split
+    · rename_i c heq
+      exact absurd rfl ((hplain _ heq).1 c)
+    · rfl
+  rw [h1]
+  unfold pullStackValue
+  split
+  · rename_i r o heq
+    exact absurd rfl ((hplain _ heq).2 r o)
+  · rfl
+
+theorem get_performMath_ne (n : Node) (out inn : AMap Reg) (wrd : W Reg) (k : Reg)
+    (hw : n.writesTo = some wrd) (hk : k ≠ wrd.val) :
+    AMap.get (rulePerformMathOps n out inn) k = AMap.get out k := by
+  unfold rulePerformMathOps
+  rw [hw]
+  simp only []
+  split
+  · exact AMap.get_insert_ne out k wrd.val _ (fun e => hk e.symm)
+  · rfl
+
+theorem get_performMath_self (n : Node) (out inn : AMap Reg) (wrd : W Reg)
+    (hw : n.writesTo = some wrd) :
+    AMap.get (rulePerformMathOps n out inn) wrd.val =
+      match mathResult n inn with
+      | some v => some v
+      | none => AMap.get out wrd.val := by
+  unfold rulePerformMathOps
+  rw [hw]
+  simp only []
+  cases mathResult n inn with
+  | some v => exact AMap.get_insert_self out wrd.val v
+  | none => rfl
+
+
+/-! ### the transfer function on register-to-register instructions -/
+
+/-- register-to-register instructions: R-type, I-type (incl. `lui`), `la` -/
+def Node.isPlain : Node → Bool
+  | .arith .. | .iarith .. | .loadAddr .. => true
+  | _ => false
+
+theorem guard_zero_some (item : Option (Reg × AVal)) (r : Reg) (val : AVal)
+    (h : (match item with
+      | some (r, v) => if r == 0 then none else some (r, v)
+      | none => none) = some (r, val)) : item = some (r, val) := by
+  cases item with
+  | none => simp at h
+  | some p =>
+    obtain ⟨r', v'⟩ := p
+    simp only [] at h
+    split at h
+    · simp at h
+    · exact h
+
+/-- the claims generated for a plain instruction are constants or addresses -/
+theorem genReg_kind (n : Node) (hp : n.isPlain = true) (r : Reg) (val : AVal)
+    (h : n.genRegValue = some (r, val)) : (∀ c, val ≠ .vcsr c) ∧ (∀ r o, val ≠ .omr r o) := by
+  have key : (∃ c, val = .const c) ∨ (∃ l, val = .addr l) := by
+    cases n with
+    | arith i rd rs1 rs2 tok =>
+      simp only [Node.genRegValue] at h
+      have := guard_zero_some _ r val h
+      split at this
+      · simp only [Option.some.injEq, Prod.mk.injEq] at this
+        exact Or.inl ⟨_, this.2.symm⟩
+      · simp at this
+    | iarith i rd rs1 imm tok =>
+      simp only [Node.genRegValue] at h
+      have := guard_zero_some _ r val h
+      split at this
+      · split at this
+        · simp only [Option.some.injEq, Prod.mk.injEq] at this
+          exact Or.inl ⟨_, this.2.symm⟩
+        · split at this
+          · simp only [Option.some.injEq, Prod.mk.injEq] at this
+            exact Or.inl ⟨_, this.2.symm⟩
+          · simp at this
+      · simp at this
+    | loadAddr i rd name tok =>
+      simp only [Node.genRegValue] at h
+      split at h
+      · simp at h
+      · simp only [Option.some.injEq, Prod.mk.injEq] at h
+        exact Or.inr ⟨_, h.2.symm⟩
+    | _ => simp [Node.isPlain] at hp
+  rcases key with ⟨c, rfl⟩ | ⟨l, rfl⟩
+  · exact ⟨fun _ => by simp, fun _ _ => by simp⟩
+  · exact ⟨fun _ => by simp, fun _ _ => by simp⟩
+
+/-- `out[n]` of a plain instruction, rule by rule (everything that cannot apply to it removed) -/
+theorem plain_regOut (cn : CNode) (inReg : AMap Reg) (inMem : AMap MemLoc) (wrd : W Reg)
+    (hp : cn.node.isPlain = true) (hw : cn.node.writesTo = some wrd) (hnz : NoZeroBase inReg) :
+    nodeRegOut cn inReg inMem =
+      AMap.erase (rulePerformMathOps cn.node
+        (ruleValueFromStack cn.node
+          (insertGen ((RegSet.toList (plainKill wrd.val)).foldl AMap.erase inReg) cn.node.genRegValue)
+          inMem) inReg) 0 := by
+  unfold nodeRegOut
+  have hcall : cn.node.callsTo = none := by
+    cases h : cn.node <;> rw [h] at hp <;> simp [Node.isPlain, Node.callsTo] at hp ⊢
+  have hfe : cn.node.isFunctionEntry = false := by
+    cases h : cn.node <;> rw [h] at hp <;> simp [Node.isPlain, Node.isFunctionEntry] at hp ⊢
+  have hhe : cn.node.isHandlerFunctionEntry = false := by
+    cases h : cn.node <;> rw [h] at hp <;> simp [Node.isPlain, Node.isHandlerFunctionEntry] at hp ⊢
+  have hpe : cn.node.isProgramEntry = false := by
+    cases h : cn.node <;> rw [h] at hp <;> simp [Node.isPlain, Node.isProgramEntry] at hp ⊢
+  have hec : cn.node.isEcall = false := by
+    cases h : cn.node <;> rw [h] at hp <;> simp [Node.isPlain, Node.isEcall] at hp ⊢
+  have hrm : cn.node.readsFromMemory = none := by
+    cases h : cn.node <;> rw [h] at hp <;> simp [Node.isPlain, Node.readsFromMemory] at hp ⊢
+  have hkill : cn.node.killReg = plainKill wrd.val := by
+    unfold Node.killReg plainKill
+    simp [hcall, hfe, hw]
+  have hsig : ecallSignature { cn with regIn := inReg } = none := by
+    unfold ecallSignature knownEcall
+    simp [hec]
+  have hexp : ∀ out, ruleExpandAddressForLoad cn.node out inReg = out := by
+    intro out
+    cases h : cn.node <;> rw [h] at hp <;> simp [Node.isPlain, ruleExpandAddressForLoad] at hp ⊢
+  have hpull : ∀ out, rulePullValueFromCsrMemory cn.node out cn.memOut = out := by
+    intro out
+    unfold rulePullValueFromCsrMemory
+    rw [hrm]
+  simp only [hcall, hfe, hhe, hpe, hec, hkill, hsig, hexp, hpull, zeroConsts_id _ _ hnz,
+    Option.isSome_none, Bool.false_eq_true, if_false, Bool.false_and]
+
+
+theorem plainValue_dest (s : MState) (n : Node) (rd : Reg) (v : Word) (h : plainValue s n = some (rd, v)) :
+    n.isPlain = true ∧ ∃ wrd, n.writesTo = some wrd ∧ wrd.val = rd := by
+  cases n with
+  | arith i wrd rs1 rs2 tok =>
+    simp only [plainValue] at h
+    cases hop : Spec.opOf i.val with
+    | none => simp [hop] at h
+    | some op =>
+      simp only [hop, Option.map_some, Option.some.injEq, Prod.mk.injEq] at h
+      exact ⟨rfl, wrd, rfl, h.1⟩
+  | iarith i wrd rs1 imm tok =>
+    simp only [plainValue] at h
+    split at h
+    · simp only [Option.some.injEq, Prod.mk.injEq] at h
+      exact ⟨rfl, wrd, rfl, h.1⟩
+    · cases hop : Spec.opOf i.val with
+      | none => simp [hop] at h
+      | some op =>
+        simp only [hop, Option.map_some, Option.some.injEq, Prod.mk.injEq] at h
+        exact ⟨rfl, wrd, rfl, h.1⟩
+  | loadAddr i wrd name tok =>
+    simp only [plainValue, Option.some.injEq, Prod.mk.injEq] at h
+    exact ⟨rfl, wrd, rfl, h.1⟩
+  | _ => simp [plainValue] at h
+
+/-- **C01 (`plain_transfer_sound`).** The register transfer function of the value analysis is
+    sound on every register-to-register instruction (all RV32IM computational instructions in
+    R and I form, `lui`, `la`): if every claim of the in-map is true before the instruction,
+    every claim of the out-map the analysis computes for the node is true after it — for all
+    operand registers (including x0 as source or destination), all immediates, all machine
+    states, whatever the node's memory facts are. -/
+theorem plain_transfer_sound (cn : CNode) (inReg : AMap Reg) (inMem : AMap MemLoc) (s s' : MState)
+    (rd : Reg) (v : Word)
+    (hval : plainValue s cn.node = some (rd, v)) (hrd : rd < 32) (hz : s.reg 0 = 0#32)
+    (hwf : AMap.WF inReg) (hnz : NoZeroBase inReg) (hs : Sound s inReg)
+    (hstep : PlainStep s s' rd v) : Sound s' (nodeRegOut cn inReg inMem) := by
+  obtain ⟨hp, wrd, hw, hwrd⟩ := plainValue_dest s cn.node rd v hval
+  rw [plain_regOut cn inReg inMem wrd hp hw hnz, hwrd]
+  intro k val hget
+  -- x0 carries no claim
+  have hk0 : k ≠ 0 := by
+    intro e; subst e; rw [AMap.get_erase_self] at hget; simp at hget
+  rw [AMap.get_erase_ne _ k 0 (fun e => hk0 e.symm)] at hget
+  -- the map after the kills
+  have hkilled : ∀ j, AMap.get ((RegSet.toList (plainKill rd)).foldl AMap.erase inReg) j =
+      if j = rd ∧ rd ≠ 0 then none else AMap.get inReg j := by
+    intro j
+    rw [AMap.get_foldl_erase]
+    by_cases hj : j ∈ RegSet.toList (plainKill rd)
+    · have hh := (mem_plainKill rd j hrd).mp hj
+      rw [if_pos hj, if_pos hh]
+    · have : ¬ (j = rd ∧ rd ≠ 0) := fun h => hj ((mem_plainKill rd j hrd).mpr h)
+      rw [if_neg hj, if_neg this]
+  by_cases hk : k = rd
+  · -- the destination
+    subst hk
+    rw [← hwrd] at hget
+    rw [get_performMath_self _ _ _ wrd hw] at hget
+    cases hm : mathResult cn.node inReg with
+    | some mv =>
+      rw [hm] at hget
+      simp only [Option.some.injEq] at hget
+      subst hget
+      exact mathResult_sound cn.node inReg s s' k v mv hs hval hstep hk0 hm
+    | none =>
+      rw [hm] at hget
+      simp only [] at hget
+      cases hg : cn.node.genRegValue with
+      | some p =>
+        obtain ⟨r, gv⟩ := p
+        obtain ⟨hr, _, hclaim⟩ := genReg_sound cn.node s s' k v r gv hz hval hstep hg
+        subst hr
+        rw [hg] at hget
+        simp only [insertGen] at hget
+        rw [valueFromStack_plain cn.node _ inMem wrd hw (by
+          intro x hx
+          rw [hwrd, AMap.get_insert_self] at hx
+          simp only [Option.some.injEq] at hx
+          subst hx
+          exact genReg_kind cn.node hp r gv hg)] at hget
+        rw [hwrd, AMap.get_insert_self] at hget
+        simp only [Option.some.injEq] at hget
+        subst hget
+        exact hclaim
+      | none =>
+        rw [hg] at hget
+        simp only [insertGen] at hget
+        rw [valueFromStack_plain cn.node _ inMem wrd hw (by
+          intro x hx
+          rw [hwrd, hkilled] at hx
+          simp [hk0] at hx)] at hget
+        rw [hwrd, hkilled] at hget
+        simp [hk0] at hget
+  · -- every other register: the claim comes unchanged from the in-map, the register is unchanged
+    have hkw : k ≠ wrd.val := by rw [hwrd]; exact hk
+    rw [get_performMath_ne _ _ _ wrd k hw hkw, get_valueFromStack_ne _ _ _ wrd k hw hkw] at hget
+    have hin : AMap.get inReg k = some val := by
+      cases hg : cn.node.genRegValue with
+      | some p =>
+        obtain ⟨r, gv⟩ := p
+        obtain ⟨hr, _, _⟩ := genReg_sound cn.node s s' rd v r gv hz hval hstep hg
+        rw [hg] at hget
+        simp only [insertGen] at hget
+        rw [AMap.get_insert_ne _ k r _ (by rw [hr]; exact fun e => hk e.symm), hkilled] at hget
+        simpa [hk] using hget
+      | none =>
+        rw [hg] at hget
+        simp only [insertGen] at hget
+        rw [hkilled] at hget
+        simpa [hk] using hget
+    have hold := hs k val hin
+    have hreg := hstep.keep k hk
+    cases val with
+    | const c => show s'.reg k = c; rw [hreg]; exact hold
+    | addr l => show s'.reg k = s'.addr l; rw [hreg, hstep.addr]; exact hold
+    | ors r0 o => show s'.reg k = s'.entry r0 + o; rw [hreg, hstep.entry]; exact hold
+    | _ => trivial
+
+
+/-- non-vacuity: the hypotheses of `plain_transfer_sound` are met by a concrete instruction and
+    state (`addi sp, sp, -16` with sp known to be the entry value) -/
+example : ∃ (cn : CNode) (inReg : AMap Reg) (s s' : MState) (rd : Reg) (v : Word),
+    plainValue s cn.node = some (rd, v) ∧ rd < 32 ∧ s.reg 0 = 0#32 ∧ AMap.WF inReg ∧ NoZeroBase inReg ∧
+    Sound s inReg ∧ PlainStep s s' rd v ∧
+    AMap.get (nodeRegOut cn inReg []) 2 = some (.ors 2 (-16#32)) := by
+  let w : FTok := FTok.default
+  let n : Node := .iarith ⟨"Addi", w⟩ ⟨2, w⟩ ⟨2, w⟩ ⟨-16#32, w⟩ RawTok.default
+  let cn : CNode := { node := n, labels := [], isText := true }
+  let s : MState := { reg := fun r => if r = 2 then 100#32 else 0#32, entry := fun _ => 100#32, addr := fun _ => 0#32 }
+  let s' : MState := { s with reg := fun r => if r = 2 then 84#32 else 0#32 }
+  refine ⟨cn, [(2, .ors 2 0#32)], s, s', 2, 84#32, ?_, by decide, rfl, by simp [AMap.WF], ?_, ?_, ?_, by decide⟩
+  · have : Spec.opOf "Addi" = some .add := by decide
+    simp only [plainValue, cn, n, this]
+    decide
+  · intro p hp
+    simp only [List.mem_singleton] at hp
+    subst hp
+    simp
+  · intro r val h
+    simp only [AMap.get, List.find?_cons, List.find?_nil] at h
+    by_cases hr : r = 2
+    · subst hr
+      simp at h
+      subst h
+      show s.reg 2 = s.entry 2 + 0#32
+      decide
+    · have : ((2 : Nat) == r) = false := by simpa using (fun e => hr e.symm)
+      simp [this] at h
+  · exact ⟨fun _ => rfl, fun r hr => by simp [s, s', hr], rfl, rfl⟩
+
 end Rva
